@@ -1,11 +1,16 @@
 #include "slu_mt_@p@defs.h"
+/* inputs: file-scope, nondeterministic initial values (replayed natively from the counterexample) */
 int_t g_j, g_bi, g_bj; extern int g_xerbla_arg;
+int_t in_nprocs; superlumt_options_t in_o; SuperMatrix in_A, in_L, in_U, in_B, in_X; NCformat in_Astore; DNformat in_Bstore, in_Xstore;
+int_t in_perm_c[CAP], in_perm_r[CAP]; equed_t in_equed; @R@ in_R[CAP], in_C[CAP]; @T@ in_Bval[CAP*2], in_Xval[CAP*2];
+@R@ in_rpg, in_rcond, in_ferr[2], in_berr[2]; superlu_memusage_t in_mu; int_t in_info;
 void h_ssvx(void) {
-  int_t nprocs; superlumt_options_t *o; SuperMatrix *A,*L,*U,*B,*X; int_t *pc,*pr,*info; equed_t *eq; @R@ *R,*C,*rpg,*rc,*fe,*be; superlu_memusage_t *mu;
-  p@p@gssvx(nprocs,o,A,pc,pr,eq,R,C,L,U,B,X,rpg,rc,fe,be,mu,info);
+  in_A.Store = &in_Astore; in_B.Store = &in_Bstore; in_X.Store = &in_Xstore; in_Bstore.nzval = in_Bval; in_Xstore.nzval = in_Xval;
+  p@p@gssvx(in_nprocs, &in_o, &in_A, in_perm_c, in_perm_r, &in_equed, in_R, in_C, &in_L, &in_U, &in_B, &in_X,
+            &in_rpg, &in_rcond, in_ferr, in_berr, &in_mu, &in_info);
   __CPROVER_assert(0, "canary: driver returns");
-  if (g_xerbla_arg == 1) __CPROVER_assert(0, "canary: info -1 reachable");
-  if (g_xerbla_arg == 7) __CPROVER_assert(0, "canary: info -7 reachable");
-  if (g_xerbla_arg == 8) __CPROVER_assert(0, "canary: info -8 reachable");
-  if (g_xerbla_arg == 12) __CPROVER_assert(0, "canary: info -12 reachable");
+  if (in_info == -1) __CPROVER_assert(0, "canary: info -1 reachable");
+  if (in_info == -7) __CPROVER_assert(0, "canary: info -7 reachable");
+  if (in_info == -8) __CPROVER_assert(0, "canary: info -8 reachable");
+  if (in_info == -12) __CPROVER_assert(0, "canary: info -12 reachable");
 }
